@@ -30,7 +30,7 @@ Inductive iop :=
 Definition rec_id (r : rec) : positive := fst (fst r).
 Definition recs_of (recs : list rec) (n : positive) : list rec := filter (fun r => Pos.eqb (rec_id r) n) recs.
 Definition lookup_cnt (cnts : list (positive * Z)) (n : positive) : Z :=
-  match find (fun p => Pos.eqb (fst p) n) cnts with Some p => snd p | None => 0 end.
+  match find (fun p => Pos.eqb (fst p) n) cnts with Some p => snd p | None => K64 end.   (* only counters <> kCompleted are listed *)
 
 (* C30 on a log: every incomplete node exactly once, complete nodes not at all, every incomplete predecessor
    finished before the dependent started, executed nodes are complete afterwards *)
@@ -79,6 +79,18 @@ Fixpoint list_eqb {A} (eqb : A -> A -> bool) (l1 l2 : list A) : bool :=
 Definition live_edges (x : xg) (c : zmap) : nat :=
   list_sum (map (fun p => if incb c p then length (filter (incb c) (x_deps x p)) else 0%nat) (x_nodes x)).
 
+(* well-formedness evaluated on the IMPLEMENTATION's structure dump: distinct nodes, dependents are nodes of the graph,
+   numPredecessors_ = number of occurrences in the dependents_ lists *)
+Definition dn_id (x : dnode) : positive := let '(n, _, _, _, _) := x in n.
+Definition dn_np (x : dnode) : Z := let '(_, np, _, _, _) := x in np.
+Definition dn_deps (x : dnode) : list positive := let '(_, _, _, _, d) := x in d.
+Definition dump_wfb (d : list (list dnode)) : bool :=
+  let all := concat d in
+  let ids := map dn_id all in
+  nodupb ids &&
+  forallb (fun x => forallb (fun y => memp y ids) (dn_deps x) &&
+                    (dn_np x =? Z.of_nat (list_sum (map (fun y => countp (dn_id x) (dn_deps y)) all)))) all.
+
 Record jst := mkJ { j_g : graph; j_prop : option (list positive * list positive * bool * bool); j_out : list (list Z); j_i : Z }.
 
 Definition b2z (b : bool) : Z := if b then 1 else 0.
@@ -121,12 +133,13 @@ Definition judge_step (j : jst) (o : iop) : jst :=
                         else if plist_eqb ran (sortp ideal) then (if plist_eqb ran (sortp modelr) then 0 else 1)
                         else if coh then 3 else 6
                     end in
-      let c' := fold_left (fun m p => PM.add (fst p) (wrap64 (snd p)) m) cnts (PM.empty Z) in
+      let c' := fold_left (fun m p => PM.add (fst p) (wrap64 (snd p)) m) cnts
+                          (fold_left (fun m n => PM.add n K64 m) (g_nodes g) (PM.empty Z)) in
       mkJ (with_cnt g c') None (j_out j ++ [[i; 0; code30; code31; b2z prep; Z.of_nat (live_edges x c)]]) (i + 1)
   | IDump d =>
       let same := list_eqb (list_eqb dnode_eqb) (dump_of g) d in
       let wf := wfgb g in
-      mkJ g (j_prop j) (j_out j ++ [[i; 1; if negb same then 1 else if wf then 0 else 2; 9; b2z wf; 0]]) (i + 1)
+      mkJ g (j_prop j) (j_out j ++ [[i; 1; if negb (dump_wfb d) then 2 else if negb same then 1 else if wf then 0 else 2; 9; b2z wf; 0]]) (i + 1)
   end.
 
 Definition judge_graph (c : bool * list iop) : list (list Z) :=
